@@ -22,8 +22,10 @@ static const uintptr_t UVA[2] = { 0x10000, 0x10ff8 }, UVB[2] = { 0x117f0, 0x11fe
 static int a_created, b_created, a_live[2], b_live[2], a_freed, b_freed, bad_free, pushed_ok, pushed_bad, b_pushes;
 static ABT_unit ua_create(ABT_pool p, ABT_thread t) { __CPROVER_assert(p == (ABT_pool)&UA && t == (ABT_thread)&T, "create_unit arguments"); __CPROVER_assert(a_created < 2, "handles"); a_live[a_created] = 1; return (ABT_unit)UVA[a_created++]; }
 static ABT_unit ub_create(ABT_pool p, ABT_thread t) { __CPROVER_assert(p == (ABT_pool)&UB && t == (ABT_thread)&T, "create_unit arguments"); __CPROVER_assert(b_created < 2, "handles"); b_live[b_created] = 1; return (ABT_unit)UVB[b_created++]; }
-static void ua_free(ABT_pool p, ABT_unit u) { a_freed++; int ok = 0; for (int i = 0; i < 2; i++) if ((uintptr_t)u == UVA[i] && a_live[i]) { a_live[i] = 0; ok = 1; } if (!ok || p != (ABT_pool)&UA) bad_free = 1; }
-static void ub_free(ABT_pool p, ABT_unit u) { b_freed++; int ok = 0; for (int i = 0; i < 2; i++) if ((uintptr_t)u == UVB[i] && b_live[i]) { b_live[i] = 0; ok = 1; } if (!ok || p != (ABT_pool)&UB) bad_free = 1; }
+static int freed_while_mapped;
+static int still_mapped(ABT_unit u) { return N0.e.unit.val == (void *)u || N1.e.unit.val == (void *)u || N2.e.unit.val == (void *)u; }
+static void ua_free(ABT_pool p, ABT_unit u) { a_freed++; if (still_mapped(u)) freed_while_mapped = 1; int ok = 0; for (int i = 0; i < 2; i++) if ((uintptr_t)u == UVA[i] && a_live[i]) { a_live[i] = 0; ok = 1; } if (!ok || p != (ABT_pool)&UA) bad_free = 1; }
+static void ub_free(ABT_pool p, ABT_unit u) { b_freed++; if (still_mapped(u)) freed_while_mapped = 1; int ok = 0; for (int i = 0; i < 2; i++) if ((uintptr_t)u == UVB[i] && b_live[i]) { b_live[i] = 0; ok = 1; } if (!ok || p != (ABT_pool)&UB) bad_free = 1; }
 static void chk_push(ABT_pool p, ABT_unit u)
 {
     int ok = 0;
@@ -70,6 +72,7 @@ int main(void)
         else { VR_ASSERT(!ABTI_unit_is_builtin(T.unit) && ABTI_unit_get_thread(&G, T.unit) == &T, "the live unit translates to the work unit"); VR_ASSERT(to == 1 ? (a_live[0] + a_live[1] == 1) : (b_live[0] + b_live[1] == 1), "exactly one live unit of the new pool"); }
     }
     VR_ASSERT(a_freed == (from == 1 && moved) && b_freed == (from == 2 && moved), "free_unit exactly once when the association with a user pool ends, never otherwise");
+    VR_ASSERT(!freed_while_mapped, "a unit handle is removed from the unit map BEFORE it is handed back to its pool (the pool may reuse the handle at once: a later unmap would hit the new owner)");
     VR_ASSERT(!bad_free, "free_unit only for live units of the pool that created them (no use after free, no foreign unit)");
     if (from == 1 && moved) VR_ASSERT(a_live[0] == 0, "old unit no longer live");
 #if OP == 2
